@@ -457,6 +457,25 @@ func writeReplay(dir, prop, obligation, what, model, query string) string {
 	return name
 }
 
+// contractDerived tells whether an obligation name comes from a contract clause (postcondition, invariant, step
+// clause, frame) rather than from an expression of the code (bounds, nil, call-site preconditions, channel and lock
+// operations): the latter come and go with harmless edits of the code and are not part of the baseline.
+func contractDerived(name string) bool {
+	i := strings.Index(name, "/")
+	if i < 0 {
+		return false
+	}
+	kind := name[i+1:]
+	if j := strings.Index(kind, ":"); j >= 0 {
+		kind = kind[:j]
+	}
+	switch kind {
+	case "post", "inv-init", "inv-step", "step":
+		return true
+	}
+	return false
+}
+
 // checkBaseline compares generated obligation names with the committed baseline of the property.
 func checkBaseline(verifDir, prop string, results []*Result, reports []*FuncReport) []string {
 	data, err := os.ReadFile(filepath.Join(verifDir, "obligations.baseline.json"))
@@ -485,7 +504,7 @@ func checkBaseline(verifDir, prop string, results []*Result, reports []*FuncRepo
 	seenMissing := map[string]bool{}
 	for _, n := range base[prop] {
 		n = baseLabel(n)
-		if have[n] || seenMissing[n] {
+		if have[n] || seenMissing[n] || !contractDerived(n) {
 			continue
 		}
 		seenMissing[n] = true
